@@ -8,3 +8,4 @@ import TvCore.Props.C11
 #print axioms TV.C11.runLoop_decides
 #print axioms TV.C11.run_decides
 #print axioms TV.C11.run_zero_clients
+#print axioms TV.C11.err_marks_finished
